@@ -119,6 +119,18 @@ impl Accept {
 }
 
 fn side_entries(side: u8, variant: u8) -> Vec<Spec> {
+    if variant == 4 {
+        // big sets: 400 entries of its own per side plus 50 both hold (messages of tens of
+        // kilobytes, many rounds; pipes smaller than one frame make back-pressure real)
+        let mut v = vec![];
+        for i in 0..400u32 {
+            v.push(Spec::new(0, side, format!("s{side}-{i:04}").as_bytes(), 1 + (i % 3) as u64, Val::X));
+        }
+        for i in 0..50u32 {
+            v.push(Spec::new(0, 0, format!("both-{i:04}").as_bytes(), 2, Val::Y));
+        }
+        return v;
+    }
     // states that need several round trips
     let keys: [&[u8]; 6] = [b"a", b"ab", b"b", b"c", b"d", b"e"];
     let mut v = vec![];
@@ -651,9 +663,10 @@ async fn scenario_fault(
     let mut obs = Observed::default();
     let ha = spawn_actor(&side_entries(0, variant));
     let hb = spawn_actor(&side_entries(1, variant));
-    // alice <-> relay <-> bob
-    let (a_end, ra_end) = tokio::io::duplex(1 << 20);
-    let (rb_end, b_end) = tokio::io::duplex(1 << 20);
+    // alice <-> relay <-> bob (for the big sets the pipes are smaller than a frame)
+    let pipe = if variant == 4 { 1 << 11 } else { 1 << 20 };
+    let (a_end, ra_end) = tokio::io::duplex(pipe);
+    let (rb_end, b_end) = tokio::io::duplex(pipe);
     let (mut a_r, mut a_w) = tokio::io::split(a_end);
     let (ra_r, ra_w) = tokio::io::split(ra_end);
     let (rb_r, rb_w) = tokio::io::split(rb_end);
@@ -725,6 +738,18 @@ async fn scenario_fault(
                                 obs.counters_mirror = Some(
                                     ao.num_sent == bo.num_recv && ao.num_recv == bo.num_sent,
                                 );
+                                if fault.is_none() {
+                                    // a complete session: both hold the merge of both sides
+                                    let mut all = side_entries(0, variant);
+                                    all.extend(side_entries(1, variant));
+                                    let signed: Vec<_> = all.iter().map(|s| s.signed()).collect();
+                                    let want = crate::refmodel::ModelReplica::spec(&signed).dump();
+                                    let da = handle_dump(&ha, ns_id(0)).await.ok();
+                                    let db = handle_dump(&hb, ns_id(0)).await.ok();
+                                    if da.as_ref() != Some(&want) || db.as_ref() != Some(&want) {
+                                        obs.transport_bad.push(("complete_session_converges".into(), format!("after a complete session over in-memory pipes: initiator holds {:?} entries, acceptor {:?}, merge has {}", da.map(|d| d.len()), db.map(|d| d.len()), want.len())));
+                                    }
+                                }
                             }
                         }
                     }
@@ -1354,6 +1379,31 @@ fn run(ctx: &Ctx, report: &mut Report) {
                     }
                     let must_fail = k == usize::MAX || k < frames;
                     one(report, Case::Fault { variant, side, fault: Some((k, fault)), must_fail }, true, ordinal);
+                }
+            }
+        }
+    }
+    // big sets: a fault-free session over pipes smaller than one frame, one over real QUIC, and a
+    // fault at the first and in the middle of the frames of either side
+    {
+        ordinal += 1;
+        if ctx.mine(ordinal) {
+            report.count("big_set_sessions", 1);
+            one(report, Case::Fault { variant: 4, side: 0, fault: None, must_fail: false }, true, ordinal);
+        }
+        ordinal += 1;
+        if ctx.mine(ordinal) {
+            report.count("big_set_sessions", 1);
+            one(report, Case::Transport { variant: 4, accept: Accept::Allow, fault: None }, true, ordinal);
+        }
+        for side in [0u8, 1] {
+            for k in [0usize, 2] {
+                for fault in [Fault::CloseDoc, Fault::Shutdown, Fault::CutInside] {
+                    ordinal += 1;
+                    if ctx.mine(ordinal) {
+                        report.count("big_set_sessions", 1);
+                        one(report, Case::Fault { variant: 4, side, fault: Some((k, fault)), must_fail: true }, true, ordinal);
+                    }
                 }
             }
         }
